@@ -171,8 +171,9 @@ pub fn render(t: &T4, case: &Case, st: &Stamp) -> Option<(String, i128)> {
         }
         (Zk::Named, ZoneChoice::Named { idx }) => {
             let tab = tz_table();
-            // only the upper-case spellings are used after a time (the lower-case ones are accepted by fewer patterns)
-            let uppers: Vec<&(String, Option<i32>)> = tab.iter().filter(|(k, _)| k.chars().all(|c| c.is_ascii_uppercase())).collect();
+            // every spelling of the table: the upper-case names and their lower-case twins (both are separate table
+            // entries in the program, so each must carry the right offset)
+            let uppers: Vec<&(String, Option<i32>)> = tab.iter().filter(|(k, _)| k.chars().all(|c| c.is_ascii_uppercase()) || k.chars().all(|c| c.is_ascii_lowercase())).collect();
             let e = uppers[(*idx as usize + st.zvar as usize) % uppers.len()];
             (e.0.clone(), e.1.unwrap_or(cli_off))
         }
